@@ -709,8 +709,10 @@ class Sym:
         le = strip_casts(lhs_expr)
         k = le.get('k')
         if k == 'ref' and le.get('kind') == 'local':
-            cur = s.env.get(('v', le['id']))
             s.env[('v', le['id'])] = value
+            return [s]
+        if k == 'ref' and le.get('kind') == 'parm':
+            s.env[('p', le['idx'])] = value
             return [s]
         if k == 'member':
             out = []
